@@ -43,7 +43,7 @@ def finish(prop, violations, known_hits, inconclusive, notes=()):
     """violations: list of (key, replay_path, text); prints the protocol lines and returns the exit code"""
     for k, text in known_hits:
         print('KNOWN-FINDING: property=%s %s' % (prop, text))
-    for msg in list(notes)[:12]: print('NOTE: property=%s not covered (wall budget): %s' % (prop, msg))
+    for msg in list(notes)[:12]: print('NOTE: property=%s %s' % (prop, msg))
     if inconclusive and not violations:
         for msg in inconclusive[:10]: print('INCONCLUSIVE: property=%s %s' % (prop, msg))
         return 2
